@@ -60,6 +60,10 @@ def detect(name, checks, tier="quick"):
     rc, out = sh(f"git apply {d}/patch.diff", cwd="/repo")
     assert rc == 0, out
     res = {}
+    saved = {}
+    for chk in checks:  # evidence files must describe the unchanged tree: put them back afterwards
+        ev = os.path.join(VERIF, "evidence", f"{chk}.json")
+        saved[ev] = open(ev).read() if os.path.exists(ev) else None
     try:
         for chk in checks:
             t0 = time.time()
@@ -74,6 +78,12 @@ def detect(name, checks, tier="quick"):
                         break
     finally:
         sh("git checkout -- .", cwd="/repo")
+        for ev, text in saved.items():
+            if text is None:
+                if os.path.exists(ev):
+                    os.remove(ev)
+            else:
+                open(ev, "w").write(text)
     mp = os.path.join(d, "meta.json")
     meta = json.load(open(mp))
     meta.setdefault("detected_by", {}).update({f"{k}/{tier}": v for k, v in res.items()})
